@@ -1,11 +1,16 @@
 package main
 
 import (
+	"bufio"
 	"bytes"
 	"encoding/json"
 	"fmt"
+	"io"
 	"math"
 	"math/rand"
+	"os"
+	"os/exec"
+	"runtime/debug"
 	"sort"
 	"strconv"
 	"strings"
@@ -148,7 +153,109 @@ func sizeClass(n int) string {
 	}
 }
 
+// The selection / percentile / RED kernels can recurse without bound when the pivot rule is wrong (Go's
+// "fatal error: stack overflow" cannot be recovered and would take the whole suite down): their op lines run in a
+// child process (`corr c12kworker x`, stack capped at 64 MB) that is restarted after a crash, so that a crash or a
+// hang is a property violation with the op line as its witness.
 func execTrace(line string) Result {
+	f := strings.Fields(line)
+	if len(f) >= 2 && f[0] == "trace" && (f[1] == "pct" || f[1] == "qsel" || f[1] == "red") && os.Getenv("VERIF_C12_INPROC") == "" {
+		return c12kCall(line)
+	}
+	return execTraceLocal(line)
+}
+
+type c12kChild struct {
+	cmd *exec.Cmd
+	in  io.WriteCloser
+	out *bufio.Reader
+}
+
+var c12kProc *c12kChild
+
+func c12kStart() *c12kChild {
+	exe, _ := os.Executable()
+	cmd := exec.Command(exe, "c12kworker", "x")
+	in, err1 := cmd.StdinPipe()
+	out, err2 := cmd.StdoutPipe()
+	if err1 != nil || err2 != nil || cmd.Start() != nil {
+		return nil
+	}
+	return &c12kChild{cmd: cmd, in: in, out: bufio.NewReaderSize(out, 1<<20)}
+}
+
+func c12kCall(line string) Result {
+	if c12kProc == nil {
+		c12kProc = c12kStart()
+		if c12kProc == nil {
+			return execTraceLocal(line)
+		}
+	}
+	p := c12kProc
+	type ans struct {
+		b   []byte
+		err error
+	}
+	ch := make(chan ans, 1)
+	go func() {
+		if _, err := io.WriteString(p.in, line+"\n"); err != nil {
+			ch <- ans{nil, err}
+			return
+		}
+		b, err := p.out.ReadBytes('\n')
+		ch <- ans{b, err}
+	}()
+	what := ""
+	select {
+	case a := <-ch:
+		if a.err == nil {
+			var r Result
+			if json.Unmarshal(a.b, &r) == nil {
+				return r
+			}
+			what = "garbled answer"
+		} else {
+			what = "the process died (stack overflow / fatal error)"
+		}
+	case <-time.After(60 * time.Second):
+		what = "no answer within 60 s"
+	}
+	_ = p.cmd.Process.Kill()
+	_ = p.cmd.Wait()
+	c12kProc = nil
+	f := strings.Fields(line)
+	cls := "?"
+	if len(f) >= 4 {
+		if v, ok := parseVals(f[3]); ok {
+			cls = valClass(v)
+		}
+	}
+	return Result{Out: "crash", Nontrivial: true, Tags: []string{f[1] + "/crash"},
+		Fails: []PropFail{{Sig: "trace-" + f[1] + "/crash-or-hang", Msg: fmt.Sprintf("%s on %s: %s", f[1], cls, what)}}}
+}
+
+func c12kWorkerMain() {
+	debug.SetMaxStack(64 << 20)
+	in := bufio.NewScanner(os.Stdin)
+	in.Buffer(make([]byte, 1<<20), 1<<28)
+	out := bufio.NewWriter(os.Stdout)
+	for in.Scan() {
+		r := func() (res Result) {
+			defer func() {
+				if e := recover(); e != nil {
+					res = Result{Out: "panic", Fails: []PropFail{{Sig: "trace-panic", Msg: fmt.Sprint(e)}}, Nontrivial: true, Tags: []string{"panic"}}
+				}
+			}()
+			return execTraceLocal(in.Text())
+		}()
+		b, _ := json.Marshal(r)
+		out.Write(b)
+		out.WriteByte('\n')
+		out.Flush()
+	}
+}
+
+func execTraceLocal(line string) Result {
 	f := strings.Fields(line)
 	if len(f) < 2 || f[0] != "trace" {
 		return Result{Out: "bad-op"}
